@@ -284,7 +284,38 @@ def core_tables():
             f"def ternaryMins : Nat × Nat × Nat := ({ternary[0]}, {ternary[1]}, {ternary[2]})", "", "end MV", ""]
     return "\n".join(out), {"binops": len(binops), "unops": len(unops), "levels": sorted(set(P(v) for v, _ in binops))}
 
-TABLES = {"LexTables": lex_tables, "CoreTables": core_tables}
+
+# ------------------------------------------------------------------------------------------------
+# Conversion tables (generate/convert/range_slice.rs): the range / slice end adjustment
+# ------------------------------------------------------------------------------------------------
+def convert_tables():
+    src = read("src/generate/convert/range_slice.rs")
+
+    def arm(kind, cond_re):
+        m = re.search(r"NodeTy::%s \{.*?\} => Ok\(Core::FunctionCall \{(.*?)\n        \}\)," % kind, src, re.S)
+        if not m:
+            raise TranslateError(f"range_slice.rs: {kind} arm not found")
+        body = m.group(1)
+        mm = re.search(r"if (!?\*?inclusive) \{\s*Core::(Add|Sub) \{\s*left: Box::from\(convert_node\(to, imp, state, ctx\)\?\),\s*right: Box::from\(Core::Int \{\s*int: String::from\(\"(\d+)\"\),\s*\}\),\s*\}\s*\} else \{\s*convert_node\(to, imp, state, ctx\)\?\s*\}", body)
+        if not mm:
+            raise TranslateError(f"range_slice.rs: {kind}: end adjustment not in the expected shape")
+        when_inclusive = not mm.group(1).startswith("!")
+        sign = 1 if mm.group(2) == "Add" else -1
+        ds = re.search(r"else \{\s*Core::Int \{\s*int: String::from\(\"(\d+)\"\),\s*\}\s*\},\s*\],", body)
+        if not ds:
+            raise TranslateError(f"range_slice.rs: {kind}: default step not found")
+        fn = re.search(r"lit: String::from\(clss::python::([A-Z]+)\)", body)
+        return when_inclusive, sign * int(mm.group(3)), int(ds.group(1)), fn.group(1) if fn else "?"
+    r_inc, r_adj, r_step, r_fn = arm("Range", None)
+    s_inc, s_adj, s_step, s_fn = arm("Slice", None)
+    out = ["-- GENERATED by tools/translate.py from /repo/src/generate/convert/range_slice.rs — do not edit", "namespace MV", "",
+           "/-- the end of a range is adjusted when `inclusive` has this value … -/", f"def rangeAdjustWhenInclusive : Bool := {'true' if r_inc else 'false'}",
+           "/-- … by adding this number -/", f"def rangeAdjust : Int := {r_adj}", f"def rangeDefaultStep : Int := {r_step}",
+           f"def sliceAdjustWhenInclusive : Bool := {'true' if s_inc else 'false'}", f"def sliceAdjust : Int := {s_adj}",
+           f"def sliceDefaultStep : Int := {s_step}", "", "end MV", ""]
+    return "\n".join(out), {"range": [r_inc, r_adj, r_step, r_fn], "slice": [s_inc, s_adj, s_step, s_fn]}
+
+TABLES = {"LexTables": lex_tables, "CoreTables": core_tables, "ConvertTables": convert_tables}
 
 
 def main(argv):
